@@ -28,7 +28,7 @@ class Untranslatable(Exception):
 
 
 LEAN_TY = {"int": "Nat", "bool": "Bool", "bls": "Bls.Op", "ty": "TypeI", "tylist": "List TypeI", "blslist": "List Bls.Op",
-           "intlist": "List Nat", "offsets": "List Bls.Op", "iter": "(Bls.Op → Py.M (List Bls.Op))"}
+           "intlist": "List Nat", "offsets": "List Bls.Op", "iter": "(Bls.Op → Py.M (List Bls.Op))", "sint": "Int", "range": "Int × Int"}
 
 PREAMBLE = [
     "/-- A serializable type as the layout code sees it. -/",
@@ -105,6 +105,14 @@ ITEMS: typing.List[dict] = [
      "paths": {"self.capacity": ("capacity", "int"), "self.alignment_requirement": ("element_type.alignment_requirement", "int"),
                "self.element_type.alignment_requirement": ("element_type.alignment_requirement", "int"),
                "self.BITS_PER_BYTE": ("(8 : Nat)", "int")}},
+]
+
+PRIMITIVE = "pydsdl/_serializable/_primitive.py"
+ITEMS += [
+    {"name": "SignedIntegerType.inclusive_value_range", "source": PRIMITIVE, "cls": "SignedIntegerType", "fn": "inclusive_value_range", "kind": "method",
+     "params": [("bit_length", "int")], "ret": "range", "paths": {"self.bit_length": ("bit_length", "int")}},
+    {"name": "UnsignedIntegerType.inclusive_value_range", "source": PRIMITIVE, "cls": "UnsignedIntegerType", "fn": "inclusive_value_range", "kind": "method",
+     "params": [("bit_length", "int")], "ret": "range", "paths": {"self.bit_length": ("bit_length", "int")}},
 ]
 
 # class constants the tables above assume; checked against the source on every run
@@ -189,6 +197,13 @@ class Tr:
                     return "(%s ++ %s)" % (a, b), ta
                 if ta == tb == "int":
                     return "(%s + %s)" % (a, b), "int"
+            if "sint" in (ta, tb) and ta in ("int", "sint") and tb in ("int", "sint"):
+                sym = {ast.Add: "+", ast.Sub: "-", ast.Mult: "*"}.get(type(n.op))
+                if sym is None:
+                    raise Untranslatable("operator %s on signed integers" % type(n.op).__name__)
+                return "(%s %s %s)" % (self.as_sint(a, ta), sym, self.as_sint(b, tb)), "sint"
+            if ta == tb == "int" and isinstance(n.op, ast.LShift):
+                return "(%s <<< %s)" % (a, b), "int"
             if ta == tb == "int":
                 if isinstance(n.op, ast.Sub):
                     return self.bind("Py.sub %s %s" % (a, b)), "int"
@@ -201,6 +216,12 @@ class Tr:
                 if isinstance(n.op, ast.Pow):
                     return "(%s ^ %s)" % (a, b), "int"
             raise Untranslatable("operator %s on %s, %s" % (type(n.op).__name__, ta, tb))
+        if isinstance(n, ast.UnaryOp) and isinstance(n.op, (ast.USub, ast.UAdd)):
+            a, ta = self.e(n.operand)
+            if ta not in ("int", "sint"):
+                raise Untranslatable("unary sign on %s" % ta)
+            a = self.as_sint(a, ta)
+            return ("(-%s)" % a if isinstance(n.op, ast.USub) else a), "sint"
         if isinstance(n, ast.UnaryOp) and isinstance(n.op, ast.Not):
             a, ta = self.e(n.operand)
             if ta != "bool":
@@ -297,6 +318,14 @@ class Tr:
         return s
 
     @staticmethod
+    def as_sint(v: str, t: str) -> str:
+        if t == "sint":
+            return v
+        if t == "int":
+            return "(%s : Int)" % v
+        raise Untranslatable("%s used as an integer" % t)
+
+    @staticmethod
     def as_bls(v: str, t: str) -> str:
         if t == "bls":
             return v
@@ -306,6 +335,18 @@ class Tr:
 
     def call(self, n: ast.Call) -> typing.Tuple[str, str]:
         f = n.func
+        try:
+            fs = ast.unparse(f)
+        except Exception:  # pragma: no cover
+            fs = "?"
+        if fs == "ValueRange" and not n.args and [k.arg for k in n.keywords] == ["min", "max"]:
+            lo, tlo = self.e(n.keywords[0].value)
+            hi, thi = self.e(n.keywords[1].value)
+            return "(%s, %s)" % (self.as_sint(lo, tlo), self.as_sint(hi, thi)), "range"
+        if fs in ("fractions.Fraction", "Fraction") and len(n.args) == 1 and not n.keywords:
+            a, ta = self.e(n.args[0])
+            if ta in ("int", "sint"):
+                return a, ta
         if n.keywords:
             raise Untranslatable("keyword arguments")
         try:
